@@ -24,6 +24,22 @@ struct has_release : std::false_type {};
 template <typename T>
 struct has_release<T, decltype(void(std::declval<T&>().release()))> : std::true_type {};
 static_assert(!has_release<quaint_ptr>::value, "[C18 w8] quaint_ptr must not expose release()");
+// re-seating with a raw pointer would keep the type-erased deleter of the OLD object's type: only the argument-less reset() is there
+template <typename P, typename = void>
+struct has_pointer_reset : std::false_type {};
+template <typename P>
+struct has_pointer_reset<P, decltype(void(std::declval<P&>().reset(std::declval<int*>())))> : std::true_type {};
+template <typename P, typename = void>
+struct has_plain_reset : std::false_type {};
+template <typename P>
+struct has_plain_reset<P, decltype(void(std::declval<P&>().reset()))> : std::true_type {};
+static_assert(!has_pointer_reset<quaint_ptr>::value, "[C18 w14] quaint_ptr must not expose reset(pointer): the new object would be deleted as the old object's type");
+static_assert(has_plain_reset<quaint_ptr>::value, "[C18 w15] quaint_ptr offers reset() without arguments");
+template <typename P, typename = void>
+struct has_swap_with_base : std::false_type {};
+template <typename P>
+struct has_swap_with_base<P, decltype(void(std::declval<P&>().swap(std::declval<qbase&>())))> : std::true_type {};
+static_assert(!has_swap_with_base<quaint_ptr>::value, "[C18 w16] quaint_ptr must not expose the base's swap (pointer and deleter of unrelated owners would be exchanged unchecked)");
 
 using opt = nitro::lang::optional<std::string>;
 static_assert(std::is_copy_constructible<opt>::value, "[C18 w9] optional is copyable");
